@@ -41,6 +41,18 @@ class Real:
         self.len_bytes = int(self.r._ds64.dataSize) if self.r._ds64 else int(ci.size)
         self.end_ok = int(ci.position.end) == self.data_off + int(ci.size)
         self.gens = []
+        # every array the reader handed out, with what it contained when it was handed out: a caller may keep blocks
+        # (`list(reader.iter_sample_blocks(n))`) and look at them later, so they must not change under later calls
+        self.kept = []
+
+    def _keep(self, block):
+        rng = self._range(block)
+        self.kept.append((block, rng))
+        return rng
+
+    def late_mismatches(self):
+        """Indices (in hand-out order) of returned blocks whose content changed after they were returned."""
+        return [(i, was, self._range(b)) for i, (b, was) in enumerate(self.kept) if self._range(b) != was]
 
     def _range(self, block):
         block = np.asarray(block)
@@ -67,11 +79,11 @@ class Real:
             if op[0] == "t":
                 return ("p", int(self.r.tell()))
             if op[0] == "r":
-                return ("b",) + self._range(self.r.read(op[1]))
+                return ("b",) + self._keep(self.r.read(op[1]))
             if op[0] == "i":
                 out = []
                 for n, b in enumerate(self.r.iter_sample_blocks(op[1])):
-                    out.append(self._range(b))
+                    out.append(self._keep(b))
                     if n > self.frames + 2:
                         return ("X", "iter-does-not-terminate")
                 return ("B", out)
@@ -83,7 +95,7 @@ class Real:
                     b = next(self.gens[op[1]])
                 except StopIteration:
                     return ("S",)
-                return ("k",) + self._range(b)
+                return ("k",) + self._keep(b)
         except Exception as e:  # anything else escaping is an observable failure
             return ("X", type(e).__name__)
         raise AssertionError(op)
@@ -324,6 +336,13 @@ class C18(Spec):
             model_outs, model_pos = parse_model(line, cfg[0], cfg[1])
             real_outs = [real.op(op) for op in ops]
             real_pos = cfg[0] + cfg[1] * int(real.r.tell())
+            late = real.late_mismatches()
+            ctx.count("late-observation:blocks-kept", len(real.kept))
+            if late:
+                ctx.hit("a block returned by read/iteration changed after it was returned (frames are not yielded "
+                        "exactly once to a caller that keeps the blocks)", {"file": fp, "ops": ops},
+                        {"block_index": late[0][0], "when_returned": late[0][1], "after_later_calls": late[0][2]},
+                        ["returned-block-aliased"])
             nontriv = any(o[0] == "s" for o in ops) and any(o[0] in "rin" for o in ops)
             ctx.case((fp, ops), nontriv, sample={"file": fp, "cfg": cfg, "ops": ops[:12], "outputs": real_outs[:12]} if nontriv else None)
             for o in ops:
@@ -452,6 +471,12 @@ class C18(Spec):
                 outs = [real.op(o) for o in ops]
                 ctx.case(("search", fp, ops), True)
                 self._predicate(ctx, fp, ops, outs)
+                late = real.late_mismatches()
+                if late:
+                    ctx.hit("a block returned by read/iteration changed after it was returned (frames are not yielded "
+                            "exactly once to a caller that keeps the blocks)", {"file": fp, "ops": ops},
+                            {"block_index": late[0][0], "when_returned": late[0][1], "after_later_calls": late[0][2]},
+                            ["returned-block-aliased"])
 
 
 SPEC = C18()
